@@ -27,6 +27,15 @@ def cases(tier, seed):
     if tier == "thorough":
         for op in ("cumsum", "cummax", "cumcount"):
             out.append({"op": op, "dtype": "float64" if op != "cumcount" else "int64", "N": 8, "G": 3, "mask": {"kind": "none"}, "skip_na": True})
+    # the public methods GroupBy.cumsum/cumcount/cummin/cummax on directly constructed states (contiguous; chunked with per-chunk dictionaries)
+    for lay in ([None, [2, 2]] if tier == "quick" else [None, [2, 2], [1, 3], [2, 1, 1]]):
+        for op in F.OPS:
+            for mk in ("none", "bool_sym"):
+                for dt in (["int64"] if op == "cumcount" else ["float64", "int64"]):
+                    c = {"op": op, "dtype": dt, "N": 4, "G": 2, "mask": {"kind": mk}, "skip_na": True, "via": "GroupBy"}
+                    if lay:
+                        c["lengths"] = lay
+                    out.append(c)
     for c in out:
         c["name"] = F.case_name(c)
     return out
